@@ -19,6 +19,12 @@ M1  Track_MC{1,2,3}.cfg: TargetTracks, BoundedLag, OnlyLearnDemands, Frame.
 M3  life-cycle scripts on real agents of every learner (real Mutations object, real checkpoints): after each learn every target
     tensor is classified lerp / noop / copy / same / other against tau*online_after + (1-tau)*target_before; Track_Trace
     demands lerp at the policy steps and noop between them (DDPG / TD3 / MATD3 with policy_freq 2, 3).
+Round 4 (coverage audit).  M3a also with batch sizes 1, 3, 5, 6 (mean not exact: the returned loss is taken up to the rounding of
+    the one division), values on a finer / coarser grid (rewards in quarters, tables in eighths; x 4), every form of the batch
+    learn() accepts (tuple / list / TensorDict / dict, int64 actions as column or vector, int64 done flags), target policy
+    smoothing switched off by noise_clip = 0 instead of policy_noise = 0, and with the learner replaced between learn calls by its
+    clone / by its checkpoint (load, load_checkpoint) / sent through a Mutations round; DDPG / TD3 / MATD3 also with policy_freq 2.  M3b also with batch sizes 3, 5, 6 and heterogeneous MADDPG / MATD3 teams.
+    Part 2 M3 also with heterogeneous teams and scripts that chain life-cycle operations without learn steps in between.
 """
 from __future__ import annotations
 
@@ -67,13 +73,15 @@ def bellman_sig(t, v):
     c = t["cfg"]
     if ev.get("op") == "diff":
         return f"bellman:{c['algo']}:diff:{c['family']}:{ev.get('what', '?')}:{_clause(v)}"
-    return f"bellman:{c['algo']}:learn-trace:{_clause(v)}:{ev.get('kind', '?')}:agents={c['n']}"
+    after = ev.get("after", "learn")
+    return (f"bellman:{c['algo']}:learn-trace:{_clause(v)}:{ev.get('kind', '?')}:agents={c['n']}"
+            + (f":after-{after}" if after not in ("learn", "create") else ""))
 
 
 def bellman_what(t, v):
     ev = v.event if isinstance(v.event, dict) else {}
-    brief = {k: ev.get(k) for k in ("op", "learner", "what", "rows", "qe", "y", "lossN", "mse", "loss", "d", "pert", "same_loss", "same_w",
-                                     "w_diff", "exc") if k in ev}
+    brief = {k: ev.get(k) for k in ("op", "learner", "what", "after", "form", "vs", "rows", "qe", "y", "lossN", "mse", "loss", "d", "pert", "same_loss",
+                                     "same_w", "w_diff", "exc") if k in ev}
     return f"{t['cfg']['algo']} learn() rejected by Bellman_Trace at event {v.step}: {v.clauses or v.invariant}; cfg={t['cfg']}; event={brief}"
 
 
@@ -162,6 +170,31 @@ def run(ctx):
                 traces.append(t)
                 ctx.case(("tab-trace", algo, nsl, nal, n, B, g2, j))
                 j += 1
+    # round 4 (coverage audit): batch sizes that are not powers of two and B = 1, rewards / values that are not integers
+    # (value scale 1/4: rewards in quarters, tables in eighths) or large (scale 4), the other forms of the same batch that learn()
+    # accepts (container, action shape / dtype, done dtype, learn arguments), and learn steps directly after clone / checkpoint load
+    # on the tabular learners (the Bellman half of "also directly after clone ... and checkpoint load")
+    for rep in range(1 if quick else 4):
+        for ai, (algo, shs) in enumerate(shapes.items()):
+            for si in range(2):
+                nsl, nal, n, _ = shs[(si + rep) % len(shs)]
+                k0 = ai + 3 * si + rep + ctx.seed
+                Bs = [[3, 1, 6, 5, 2, 7][(k0 + i) % 6] for i in range(6)]         # successive learn calls of one agent
+                vss = [[0.25, 4.0, 1.0, 0.25][(k0 + i) % 4] for i in range(4)]
+                g2 = [1, 2, 2, 1, 2, 1, 1, 2][(j + rep) % 8]                      # (gamma = 0 is covered by the plain traces above)
+                t = bm.run_tab_trace(algo, nsl=nsl, nal=nal, n=n, B=Bs[0], g2=g2, seed=ctx.seed * 10007 + j, learns=5 if quick else 7,
+                                     vary=True, lifecycle=True, Bs=Bs, vss=vss, pf=1 + (si + rep) % 2)
+                traces.append(t)
+                ctx.case(("tab-trace-varied", algo, nsl, nal, n, tuple(Bs), g2, tuple(vss), j))
+                j += 1
+    forms = sorted({f for t in traces for e in t["ev"] if e["op"] == "loss" for f in e.get("form", "").split("+") if f})
+    afters = sorted({e.get("after", "") for t in traces for e in t["ev"] if e["op"] == "loss"})
+    ctx.extra["tab_batch_forms_seen"], ctx.extra["tab_learn_after"] = forms, afters
+    need = {"done:int64", "action:int64(B,1)", "action:int64(B,)", "batch:TensorDict", "batch:list", "batch:dict", "keys:rotated", "noise_clip=0"}
+    need_after = {"clone", "loadnew", "loadinto", "mutate:none", "mutate:param"}
+    if not need <= set(forms) or not need_after <= set(afters):
+        raise Vacuous(f"tabular traces: batch forms {sorted(need - set(forms))} / life-cycle steps "
+                      f"{sorted(need_after - set(afters))} never exercised")
     ctx.sample({"tab_trace_cfg": traces[-1]["cfg"], "first_event": {k: traces[-1]["ev"][0][k] for k in ("learner", "rows", "y", "lossN")}})
 
     # ------------------------------------------------------------------ M3b: differential DoneMasks on the real networks
@@ -173,15 +206,22 @@ def run(ctx):
                 if quick and fi > 0 and (vi + ctx.seed) % 3 != 0:
                     continue
                 gamma = 0.0 if (not quick and rep == 3 and vi % 2 == 0) else None
-                t = bm.run_diff(variant, fam, seed=ctx.seed * 7919 + 13 * j + 1, gamma=gamma)
+                Bd = [8, 5, 8, 3, 8, 6][(j + ctx.seed) % 6]          # batch (and configured batch size) also not a power of two
+                t = bm.run_diff(variant, fam, seed=ctx.seed * 7919 + 13 * j + 1, gamma=gamma, B=Bd)
                 traces.append(t)
-                ctx.case(("diff", variant, fam, gamma, j))
+                ctx.case(("diff", variant, fam, gamma, Bd, j))
                 j += 1
+        # heterogeneous teams: agents whose observation / action spaces differ in size
+        for vi, variant in enumerate(bm.HETERO):
+            t = bm.run_diff(variant, "vector", seed=ctx.seed * 7919 + 13 * j + 1, B=[8, 5][(vi + rep) % 2])
+            traces.append(t)
+            ctx.case(("diff", variant, "vector", None, j))
+            j += 1
     k = 0
     for rep in range(1 if quick else 4):
         for (nstep, combined, per) in [(False, False, False), (False, False, True), (True, False, False), (True, False, True),
                                        (True, True, False), (True, True, True)]:
-            N, vmin, B = [(5, -2, 4), (3, 0, 8), (11, -5, 8), (4, 1, 2)][(k + rep) % 4]
+            N, vmin, B = [(5, -2, 4), (3, 0, 8), (11, -5, 8), (4, 1, 2), (6, -1, 5), (7, -3, 3)][(k + rep + ctx.seed) % 6]
             t = bm.run_diff_rainbow_stub(N=N, vmin=vmin, B=B, n=2 + k % 2, nstep=nstep, combined=combined, per=per, seed=ctx.seed * 31 + k)
             traces.append(t)
             ctx.case(("diff-stub", N, vmin, B, nstep, combined, per, k))
@@ -195,18 +235,25 @@ def run(ctx):
     # ------------------------------------------------------------------ Part 2 M3: life-cycle traces
     combos = [("DQN", 1), ("DQN-double", 1), ("CQN", 1), ("RainbowDQN", 1), ("RainbowDQN-per", 1), ("RainbowDQN-nstep", 1),
               ("DDPG", 1), ("DDPG", 2), ("TD3", 1), ("TD3", 2), ("TD3", 3), ("MADDPG", 1), ("MATD3", 1), ("MATD3", 2), ("MATD3", 3)]
+    combos += [("MADDPG-hetero", 1), ("MATD3-hetero", 2)]
     if not quick:
-        combos += [("CQN-double", 1), ("RainbowDQN-nstep-per", 1), ("RainbowDQN-nstep-combined", 1), ("DDPG", 3)]
+        combos += [("CQN-double", 1), ("RainbowDQN-nstep-per", 1), ("RainbowDQN-nstep-combined", 1), ("DDPG", 3), ("MATD3-hetero", 1)]
     by_pf = {1: [], 2: [], 3: []}
     j = 0
     for rep in range(2 if quick else 8):
         for ci, (variant, pf) in enumerate(combos):
             fam = "vector" if quick or rep % 4 != 3 else ["image", "dict", "discrete"][j % 3]
             tau = [0.25, 0.5][(ci + rep) % 2]            # every learner sees both (tau = 1/2 cannot tell tau from 1 - tau)
-            ops = bm.script(random.Random(ctx.seed * 1009 + j), pf, length=13 if quick else 22)
+            # every third script chains life-cycle operations without learn steps in between (clone right after a mutation, ...)
+            dense = 0.45 if (ci + 2 * rep + ctx.seed) % 3 == 2 else 0.0
+            if variant in bm.HETERO:
+                fam = "vector"
+                if quick and rep > 0:
+                    continue
+            ops = bm.script(random.Random(ctx.seed * 1009 + j), pf, length=13 if quick else 22, dense=dense)
             t = bm.run_track(variant, fam, ops, pf=pf, tau=tau, seed=ctx.seed * 17 + j)
             by_pf[pf].append(t)
-            ctx.case(("track", variant, pf, tau, fam, j))
+            ctx.case(("track", variant, pf, tau, fam, dense, j))
             j += 1
     # the boundary tau = 1 (hard update): the target equals the online network after every update step and must keep those weights
     # between the delayed learners' policy steps
@@ -239,6 +286,11 @@ def run(ctx):
             continue                    # reported as a violation above
         if "lerp" not in s or (p > 1 and "noop" not in s):
             raise Vacuous(f"no decided lerp / noop observed for {a} pf={p}: {sorted(s)}")
+    chains = sorted({f"{a['op']}>{b['op']}" for t in allt for a, b in zip(t["ev"], t["ev"][1:])
+                     if a["op"] not in ("learn", "create", "save") and b["op"] not in ("learn", "save")})
+    ctx.extra["track_lifecycle_chains_seen"] = chains
+    if len(chains) < 3:
+        raise Vacuous(f"life-cycle scripts: hardly any operation directly followed by another one ({chains})")
     everything = set().union(*seen.values())
     for need in ("after-clone", "after-mutate", "after-loadnew", "after-loadinto"):
         if need not in everything:
@@ -299,7 +351,9 @@ def replay(path):
         else:
             ev0 = rp["trace"]["ev"][0]
             if ev0["op"] == "loss":
-                t = bm.run_tab_trace(c["algo"], nsl=c["nsl"], nal=c["nal"], n=c["n"], B=c["B"], g2=c["g2"], seed=c["seed"], learns=c["learns"])
+                t = bm.run_tab_trace(c["algo"], nsl=c["nsl"], nal=c["nal"], n=c["n"], B=c["B"], g2=c["g2"], seed=c["seed"], learns=c["learns"],
+                                     vs=c.get("vs", 1.0), vary=c.get("vary", False), lifecycle=c.get("lifecycle", False),
+                                     Bs=c.get("Bs") or None, vss=c.get("vss") or None, pf=c.get("pf", 1))
             elif c["family"] == "stub":
                 t = bm.run_diff_rainbow_stub(N=c["N"], vmin=c["vmin"], B=c["B"], n=c["nstep_n"], nstep="-nstep" in c["algo"],
                                              combined="-combined" in c["algo"], per="-per" in c["algo"], seed=c["seed"])
